@@ -10,7 +10,7 @@ from . import grammar
 
 
 def c04(rep, tier):
-    n = 9 if tier == 'quick' else 14
+    n = 13 if tier == 'quick' else 17
     start, prods = grammar.load_reference()
     sk = grammar.Skeleton()
     rep.note_facts(sk.facts)
